@@ -684,7 +684,10 @@ handleASDU(CS101_Slave self, CS101_ASDU asdu)
             }
         }
         else
+        {
             responseCOTUnknown(asdu, &(self->iMasterConnection));
+            messageHandled = true;
+        }
 
         break;
 
@@ -714,7 +717,10 @@ handleASDU(CS101_Slave self, CS101_ASDU asdu)
             }
         }
         else
+        {
             responseCOTUnknown(asdu, &(self->iMasterConnection));
+            messageHandled = true;
+        }
 
         break;
 
@@ -741,7 +747,10 @@ handleASDU(CS101_Slave self, CS101_ASDU asdu)
             }
         }
         else
+        {
             responseCOTUnknown(asdu, &(self->iMasterConnection));
+            messageHandled = true;
+        }
 
         break;
 
@@ -777,7 +786,10 @@ handleASDU(CS101_Slave self, CS101_ASDU asdu)
             }
         }
         else
+        {
             responseCOTUnknown(asdu, &(self->iMasterConnection));
+            messageHandled = true;
+        }
 
         break;
 
@@ -822,7 +834,10 @@ handleASDU(CS101_Slave self, CS101_ASDU asdu)
             }
         }
         else
+        {
             responseCOTUnknown(asdu, &(self->iMasterConnection));
+            messageHandled = true;
+        }
 
         break;
 
@@ -850,7 +865,10 @@ handleASDU(CS101_Slave self, CS101_ASDU asdu)
             }
         }
         else
+        {
             responseCOTUnknown(asdu, &(self->iMasterConnection));
+            messageHandled = true;
+        }
 
         break;
 
